@@ -28,14 +28,16 @@ VALS = {"v_int": 0, "v_list": [0, "a"], "v_dict": {"a": 0}, "v_bad": [None], "v_
         # values that are == (and hash alike) but of different kinds: forced collisions for any
         # cache or table keyed by value
         "v_zero": 0, "v_fzero": 0.0, "v_false": False, "v_one_list": [1], "v_fone_list": [1.0],
-        "v_true_list": [True], "v_str": "a", "v_bytes": b"a"}
+        "v_true_list": [True], "v_str": "a", "v_bytes": b"a",
+        # equal AND of one kind, yet not the same value: negative zero
+        "v_nzero": -0.0, "v_nzero_list": [-0.0]}
 # dict subclasses whose lookups of absent keys answer (and, for defaultdict, insert): a fresh one
 # per use, because a mutated argument must not leak into the next history
 MISSING = {"v_dd_int": lambda: collections.defaultdict(int, {"a": 0}),
            "v_dd_list": lambda: collections.defaultdict(list),
            "v_counter": lambda: collections.Counter({"a": 0})}
-COLLIDING = ("v_zero", "v_fzero", "v_false", "v_str", "v_bytes")
-COLLIDING_LISTS = ("v_one_list", "v_fone_list", "v_true_list")
+COLLIDING = ("v_zero", "v_fzero", "v_false", "v_str", "v_bytes", "v_nzero")
+COLLIDING_LISTS = ("v_one_list", "v_fone_list", "v_true_list", "v_nzero_list")
 NPOOL = 6   # members with the full event set; member 6 (a regex str) has three events
 
 
@@ -124,6 +126,8 @@ def events():
     ev += [("repr", 8), ("validate", 8, "v_int"), ("gen", 8), ("eq", 8, 8), ("subst", 8, "v_int")]
     # make_required with the keys given as a SET the caller goes on holding
     ev += [("mkreq_set", 3, ("a", "b")), ("mkreq_set", 3, ("a",)), ("mkreq_set", 7, ("a",))]
+    # augmented assignment: `x = d; x += other` / `x |= other` rebinds x, d stays what it was
+    ev += [("iadd", 3, 3), ("iadd", 3, 7), ("iadd", 7, 3), ("ior", 0, 1), ("ior", 4, 0)]
     ev += [("subst_untyped", vn) for vn in COLLIDING_LISTS]
     ev += [("subst_untyped_dict", vn) for vn in COLLIDING[:3]]
     muts = [("mut", "E0.append"), ("mut", "L0.append"), ("mut", "L0.clear"), ("mut", "L0.setitem"), ("mut", "D0.set"),
@@ -205,6 +209,14 @@ def step(st, e, rng):
         if k == "subst":
             v = arg(e[2], value(st, e[2]))
             return substitute(operand(st, e[1]), v), args
+        if k == "iadd":
+            x = operand(st, e[1])
+            x += operand(st, e[2])
+            return x, args
+        if k == "ior":
+            x = operand(st, e[1])
+            x |= operand(st, e[2])
+            return x, args
         if k == "add":
             return operand(st, e[1]) + operand(st, e[2]), args
         if k == "or":
